@@ -72,8 +72,77 @@ func genWeight(r *gen.Rng, mode int) uint32 {
 	return genWeight(r, r.Intn(5))
 }
 
+// Weight mode 7, "scaled": weights that share a common factor, as in
+// hand-written configurations ({100,100,101}, {1000,2000,1000}, {6,6,9}):
+// factor x small multiplier for every shard, and for half of the maps one
+// shard that is off that grid (factor*m+-1, or a small weight). For such maps
+// the greatest common divisor of the weights - the natural "unit" of the map -
+// differs between the map and some of its single removals / additions, while
+// the (key, weight) pairs of the other shards stay what they were. The property
+// quantifies over arbitrary non-zero weights; this family is the part of that
+// space in which a shard's routing could depend on the OTHER shards' weights
+// through a shared scale, which uniformly random weights (gcd 1 before and
+// after, almost surely) never exercise.
+var scaleFactors = []uint32{2, 3, 6, 10, 100, 1000, 1 << 16}
+
+func genScaledWeights(r *gen.Rng, n int) (ws []uint32, factor uint32) {
+	factor = scaleFactors[r.Intn(len(scaleFactors))]
+	if r.Chance(1, 4) {
+		factor = uint32(r.Range(2, 1<<20))
+	}
+	for i := 0; i < n; i++ {
+		ws = append(ws, factor*uint32(r.Pick(1, 1, 1, 2, 2, 3)))
+	}
+	if r.Chance(1, 2) {
+		ws[r.Intn(n)] = offGridWeight(r, factor)
+	}
+	return ws, factor
+}
+
+// offGridWeight returns a non-zero weight that is (almost always) not a
+// multiple of factor. factor >= 2.
+func offGridWeight(r *gen.Rng, factor uint32) uint32 {
+	m := uint32(r.Range(1, 3))
+	switch r.Intn(4) {
+	case 0:
+		return factor*m + 1
+	case 1:
+		return factor*m - 1
+	case 2:
+		return uint32(r.Range(1, 9))
+	}
+	return 1
+}
+
+// scaledAdditionWeight is the weight of a shard added to a "scaled" map: on
+// the grid or off it.
+func scaledAdditionWeight(r *gen.Rng, factor uint32) uint32 {
+	if r.Chance(1, 3) {
+		return factor * uint32(r.Range(1, 3))
+	}
+	return offGridWeight(r, factor)
+}
+
+func gcd32(a, b uint32) uint32 {
+	for b != 0 {
+		a, b = b, a%b
+	}
+	return a
+}
+
+// weightsGCD is used for COVERAGE COUNTING only (how many removal / addition
+// relations were evaluated across a change of the weights' common divisor).
+func weightsGCD(m []sharding.Shard) uint32 {
+	var g uint32
+	for _, s := range m {
+		g = gcd32(g, s.Weight)
+	}
+	return g
+}
+
 // genMap returns n shards with distinct keys. weightMode 0..5 as genWeight,
-// 6: one common weight for all shards.
+// 6: one common weight for all shards. (Mode 7 of the selector engine draws
+// the keys here and the weights from genScaledWeights.)
 func genMap(r *gen.Rng, n, weightMode int, avoid map[string]bool) []sharding.Shard {
 	seen := map[string]bool{}
 	for k := range avoid {
@@ -269,6 +338,43 @@ func (mm *modelMap) findTies(r *gen.Rng, budget, want int) (ties []uint64, tries
 		h := mm.hashes[a] ^ unmix(x)
 		if _, tied, _ := mm.top(h); tied >= 2 {
 			ties = append(ties, h)
+		}
+	}
+	return
+}
+
+// findNearTies searches for hashes at which the two best shards score within
+// a relative 2^-13 of each other (exact ties included). These are the inputs
+// on which the ORDER of two shards is decided by the last few bits of the
+// integer quotient in score(): any rounding, rescaling or normalisation of
+// the weights that is not the same for the map and for its removals /
+// additions shows there and nowhere else. One shard's mixed value is steered to
+// [2^(63-s), 2^(64-s)), s in 0..3 (where a runner-up that close is most
+// probable while the remaining shards still score lower); the other shards are
+// left to chance.
+func (mm *modelMap) findNearTies(r *gen.Rng, budget, want int) (near []uint64, tries int) {
+	n := len(mm.hashes)
+	if n < 2 {
+		return nil, 0
+	}
+	shifts := [8]uint{0, 1, 1, 2, 2, 2, 3, 3}
+	for tries < budget && len(near) < want {
+		tries++
+		v := r.Uint64()
+		a := int((v >> 8) % uint64(n))
+		x := (1<<63 | r.Uint64()>>1) >> shifts[v&7]
+		h := mm.hashes[a] ^ unmix(x)
+		var s1, s2 uint64
+		for i, kh := range mm.hashes {
+			s := modelScore(mix(kh^h), mm.weights[i])
+			if s > s1 {
+				s1, s2 = s, s1
+			} else if s > s2 {
+				s2 = s
+			}
+		}
+		if s1-s2 <= s1>>13 {
+			near = append(near, h)
 		}
 	}
 	return
